@@ -11,7 +11,7 @@
 (*   "append"  spec_append on all shapes <= AppMax x AppMax, shifts -AppMax..AppMax      *)
 (* The states with pc = "done" carry the call and the dictionary readspec must return.   *)
 EXTENDS ReadSpec, TLC
-CONSTANTS Families, MaxLen, LocLen, Fibs, AppMax
+CONSTANTS Families, MaxLen, LocLen, Fibs, AppMax, LongLens, LongSeeds
 VARIABLES pc, b, call, req, keys, ki, blk, acc, ret
 vars == <<pc, b, call, req, keys, ki, blk, acc, ret>>
 
@@ -27,15 +27,32 @@ Fits(bb, cv) ==
   /\ (cv.f = "s") => \A i \in DOMAIN bb : bb[i].fib = bb[1].fib
   /\ (cv.p = "s" /\ cv.f = "s") => Len(bb) = 1
 MkCall(bb, cv, loc) ==
-  [kind |-> "readspec", conv |-> cv, loc |-> loc,
+  [kind |-> "readspec", conv |-> cv, loc |-> loc, mem |-> "plain",
    p |-> IF cv.p = "s" THEN <<bb[1].plate>> ELSE [i \in DOMAIN bb |-> bb[i].plate],
    m |-> IF cv.m = "o" THEN <<>> ELSE IF cv.m = "s" THEN <<bb[1].mjd>> ELSE [i \in DOMAIN bb |-> bb[i].mjd],
    f |-> IF cv.f = "s" THEN <<bb[1].fib>> ELSE [i \in DOMAIN bb |-> bb[i].fib]]
 AllFibCall(ps, ms) == [kind |-> "readspec", conv |-> [p |-> IF Len(ps) = 1 THEN "s" ELSE "v",
                                                        m |-> IF ms = <<>> THEN "o" ELSE "s", f |-> "o"],
-                       loc |-> "env", p |-> ps, m |-> ms, f |-> <<>>]
+                       loc |-> "env", mem |-> "plain", p |-> ps, m |-> ms, f |-> <<>>]
+
 RECURSIVE Ascending(_)
 Ascending(S) == IF S = {} THEN <<>> ELSE LET x == CHOOSE y \in S : \A z \in S : y <= z IN <<x>> \o Ascending(S \ {x})
+
+(* "long" family: request vectors of 17..40 elements (beyond any small-array special case *)
+(* of a sort), necessarily with repeated plate-MJDs and repeated fibres.  Element i of    *)
+(* vector (n, s, v) is a scrambled pick: v = "any" over all files, "latest" over the      *)
+(* latest MJD of every plate (fits the MJD-omitted conventions), "onefile" within one     *)
+(* file (fits the scalar-plate conventions).                                               *)
+NF == Cardinality(Fibs)
+Scramble(i, s, n) == ((s * 7 + i * i * 5 + i * 3) % n) + 1
+LatestFiles == Ascending({f \in Files : Tree[f].mjd = Latest(Tree[f].plate)})
+LongVec(n, s, v) ==
+  [i \in 1..n |->
+     LET f == IF v = "any" THEN Scramble(i, s, Len(Tree))
+              ELSE IF v = "latest" THEN LatestFiles[Scramble(i, s, Len(LatestFiles))]
+              ELSE (s % Len(Tree)) + 1
+         k == Scramble(i + s, s + 1, NF)
+     IN [plate |-> Tree[f].plate, mjd |-> Tree[f].mjd, fib |-> k]]
 
 NoCall == [kind |-> "none"]
 Blank(p) == /\ pc = p /\ b = <<>> /\ call = NoCall /\ req = <<>> /\ keys = <<>> /\ ki = 0
@@ -54,6 +71,11 @@ Init ==
           /\ (loc = "path") => \A i \in 1..n : bb[i].plate = bb[1].plate
           /\ call = MkCall(bb, cv, loc)
           /\ pc = "call" /\ b = <<>> /\ req = <<>> /\ keys = <<>> /\ ki = 0 /\ blk = Empty /\ acc = Empty /\ ret = <<>>
+  \/ /\ "long" \in Families
+     /\ \E n \in LongLens : \E s \in LongSeeds : \E v \in {"any", "latest", "onefile"} : \E cv \in Convs :
+          /\ Fits(LongVec(n, s, v), cv)
+          /\ call = MkCall(LongVec(n, s, v), cv, "env")
+     /\ pc = "call" /\ b = <<>> /\ req = <<>> /\ keys = <<>> /\ ki = 0 /\ blk = Empty /\ acc = Empty /\ ret = <<>>
   \/ /\ "allfib" \in Families
      /\ \/ \E f \in Files : \E om \in BOOLEAN :
               /\ om => Tree[f].mjd = Latest(Tree[f].plate)
@@ -93,17 +115,21 @@ ASSUME TreeWellFormed /\ LayoutWellFormed
 Done == pc = "done"
 TypeOK == /\ pc \in {"build", "file", "call", "group", "read", "append", "reorder", "return", "done", "appended"}
           /\ ki \in 0..(Len(Tree) + 1)
-          /\ (call.kind = "readspec") => (ValidCall(call) /\ call.loc \in Locs)
+          /\ (call.kind = "readspec") => (ValidCall(call) /\ call.loc \in Locs /\ call.mem \in Mems)
           /\ (pc \notin {"build", "file", "call", "appended"}) => RequestOK(req)
 C16_RowIdentity == Done => RowIdentity(req, ret)
 C16_NoShift == Done => NoShift(req, ret)
 C16_ZeroPadRight == Done => ZeroPadRight(req, ret)
 C16_LoglamAffine == Done => LoglamAffine(req, ret)
 C16_TablesFollow == Done => TablesFollow(req, ret)
-C16_MatchesSpecified == Done => (ret = Specified(req) /\ ret = Run(req))
+(* Run (the composition of the step operators as one expression) is compared on the short  *)
+(* vectors only: TLC evaluates its nested function expressions lazily, which is slow for    *)
+(* long ones; the actions themselves are checked against Specified for every vector.        *)
+C16_MatchesSpecified == Done => (ret = Specified(req) /\ (Len(req) <= 8 => ret = Run(req)))
 (* the result does not depend on the calling convention or on how the tree is located *)
 C16_ConvIndependent == (Done /\ call.conv.f # "o") => \A cv \in Convs :
       Fits(req, cv) => Requests(MkCall(req, cv, call.loc)) = req
+C16_MemIndependent == (pc = "call") => MemIndependent(call)
 (* bookkeeping of the procedure: positions read so far are distinct request positions,   *)
 (* the accumulated block is rectangular, and before Reorder they are a permutation       *)
 C16_IndexBookkeeping ==
